@@ -15,8 +15,10 @@ import (
 	"os"
 	"path/filepath"
 	"reflect"
+	"runtime"
 	"sort"
 	"strings"
+	"sync"
 	"time"
 
 	"github.com/zmap/zcrypto/x509"
@@ -739,9 +741,9 @@ func subSweep(out string, seed uint64, tier string, arg string) {
 	}
 	st := &sweepState{rep: rep, props: props, metas: registryMetas(g), observed: map[string]map[int]bool{}, global: g}
 	objs := loadObjects()
-	perObj := 6
+	perObj := 24
 	if tier == "thorough" {
-		perObj = 60
+		perObj = 240
 	}
 	if props["C04"] && !props["C01"] && !props["C02"] {
 		perObj = perObj / 3
@@ -767,37 +769,99 @@ func subSweep(out string, seed uint64, tier string, arg string) {
 			}
 		}
 	}
-	process := func(o *Obj) {
-		rep.Evaluations++
-		rep.distinctKey(string(sha256Sum(o.DER)))
-		rep.count("kind:" + o.Kind)
+	// One job per seed object: the object and its mutants, generated from an RNG derived from (seed, index), so the
+	// set of inputs does not depend on scheduling; every job writes into its own report, merged in index order.
+	process := func(lst *sweepState, o *Obj) {
+		lr := lst.rep
+		lr.Evaluations++
+		lr.distinctKey(string(sha256Sum(o.DER)))
+		lr.count("kind:" + o.Kind)
 		rs, pmsg := lintObj(o, g)
-		st.checkC01(o, g, rs, pmsg, "global")
-		st.checkC02(o, rs, pmsg)
-		st.checkAssumptions(o)
-		st.checkC06(o, rs)
-		st.checkC04(o, rs)
+		lst.checkC01(o, g, rs, pmsg, "global")
+		lst.checkC02(o, rs, pmsg)
+		lst.checkAssumptions(o)
+		lst.checkC06(o, rs)
+		lst.checkC04(o, rs)
 		if rs != nil {
 			for _, r := range rs.Results {
 				if r != nil {
-					rep.count("status:" + r.Status.String())
+					lr.count("status:" + r.Status.String())
 				}
 			}
 		}
 		for _, fr := range filteredRegs {
 			rs2, p2 := lintObj(o, fr.reg)
-			st.checkC01(o, fr.reg, rs2, p2, fr.desc)
+			lst.checkC01(o, fr.reg, rs2, p2, fr.desc)
 		}
 	}
-	for _, o := range objs {
-		process(o)
-		rep.sample(map[string]interface{}{"object": o.Name, "kind": o.Kind, "der_len": len(o.DER)})
-		n := perObj
-		if o.Kind != "cert" {
-			n = perObj * 8 // few CRL / OCSP seeds: mutate them harder
+	type jobResult struct {
+		rep      *Report
+		observed map[string]map[int]bool
+	}
+	results := make([]*jobResult, len(objs))
+	jobs := make(chan int)
+	var wg sync.WaitGroup
+	workers := runtime.GOMAXPROCS(0)
+	if workers > 16 {
+		workers = 16
+	}
+	for w := 0; w < workers; w++ {
+		wg.Add(1)
+		go func() {
+			defer wg.Done()
+			for idx := range jobs {
+				o := objs[idx]
+				lr := newReport(rep.Sub, seed, tier)
+				lst := &sweepState{rep: lr, props: props, metas: st.metas, observed: map[string]map[int]bool{}, global: g}
+				jr := NewRNG(seed*1000003 + uint64(idx) + 1)
+				process(lst, o)
+				n := perObj
+				if o.Kind != "cert" {
+					n = perObj * 8 // few CRL / OCSP seeds: mutate them harder
+				}
+				for _, m := range mutants(o, jr, n, lr) {
+					process(lst, m)
+				}
+				results[idx] = &jobResult{lr, lst.observed}
+			}
+		}()
+	}
+	for i := range objs {
+		jobs <- i
+	}
+	close(jobs)
+	wg.Wait()
+	_ = rng
+	for i, r := range results {
+		if r == nil {
+			continue
 		}
-		for _, m := range mutants(o, rng, n, rep) {
-			process(m)
+		rep.Evaluations += r.rep.Evaluations
+		for k := range r.rep.distinct {
+			rep.distinct[k] = true
+		}
+		for k, v := range r.rep.Dist {
+			if !strings.HasPrefix(k, "viol:") {
+				rep.Dist[k] += v
+			}
+		}
+		for _, v := range r.rep.Violations {
+			rep.violate(v)
+			k := "viol:" + v.Property + "|" + v.Key
+			if extra := r.rep.Dist[k] - 1; extra > 0 {
+				rep.Dist[k] += extra
+			}
+		}
+		for k, v := range r.observed {
+			if st.observed[k] == nil {
+				st.observed[k] = map[int]bool{}
+			}
+			for s := range v {
+				st.observed[k][s] = true
+			}
+		}
+		if i < 5 {
+			rep.sample(map[string]interface{}{"object": objs[i].Name, "kind": objs[i].Kind, "der_len": len(objs[i].DER)})
 		}
 	}
 	obs := map[string][]int{}
